@@ -1,13 +1,13 @@
-INIT ObsInitNoDup
+INIT MCInitCounts2
 NEXT Next
 CONSTANTS Configs = {}
   CountBasedCheck = FALSE
   SkipEpochWithoutRow = FALSE
   LoadEveryEngine = FALSE
-  LoadOnlyOwnTargets = TRUE
+  LoadOnlyOwnTargets = FALSE
   CrashOnDuplicate = FALSE
   KeepDuplicates = FALSE
-  CreateMissingTables = FALSE
+  CreateMissingTables = TRUE
 INVARIANT ImportFaithful
 INVARIANT NoStaleState
 INVARIANT ObsReachFilter
